@@ -36,6 +36,10 @@ def run_flow(pid, tier, replay, prefix):
     texts = [c["text"] for c in cases]
     progs = dict(corpus.all_programs())
     progs.update({"exit-%d" % i: t for i, t in enumerate(corpus.EXIT_PROGRAMS)})
+    progs.update({"shared-%d" % i: t for i, t in enumerate(corpus.SHARED_PROGRAMS)})
+    cres = run_tlc("Gen_Conform", cfg="Gen_Conform", simulate=(40 if tier == "quick" else 800), depth=10, workers=4, seed_=seed() * 53 + 9)
+    out.add_tlc(cres)
+    progs.update({"conform-%d" % i: c["text"] for i, c in enumerate(cres.tagged("CASE"))})
     for name, text in progs.items():
         texts.append(text)
         metas.append({"syms": [], "pos": [0, 0, 0, 0, 0], "shape": "corpus:" + name, "n": 0})
